@@ -1,0 +1,177 @@
+package gomatrixserverlib
+
+import (
+	"bytes"
+	"encoding/json"
+	"reflect"
+	"strconv"
+	"strings"
+	"sync"
+)
+
+// unmarshalExact is json.Unmarshal, except that a JSON object member is only
+// ever stored into the struct field whose name it has exactly.
+//
+// encoding/json matches member names to struct fields case-insensitively and
+// folds U+017F (long s) and U+212A (Kelvin sign) to ASCII, so members named
+// "Event_ID", "haſhes" or "State_Default" would be read as "event_id", "hashes"
+// and "state_default". Everything else that looks at the same JSON (gjson, the
+// content hash, the signatures, other Matrix implementations) treats those as
+// different, unknown keys, so they must not be able to stand in for the real ones.
+func unmarshalExact(data []byte, v interface{}) error {
+	return json.Unmarshal(dropInexactKeys(data, reflect.TypeOf(v)), v)
+}
+
+var jsonUnmarshalerType = reflect.TypeOf((*json.Unmarshaler)(nil)).Elem()
+
+// exactFieldNames returns, for a struct type, the JSON member names that
+// encoding/json would marshal its fields under, with the type of each field.
+// Fields of embedded structs are promoted as encoding/json promotes them.
+var exactFieldCache sync.Map // reflect.Type -> map[string]reflect.Type
+
+func exactFieldNames(t reflect.Type) map[string]reflect.Type {
+	if cached, ok := exactFieldCache.Load(t); ok {
+		return cached.(map[string]reflect.Type)
+	}
+	fields := map[string]reflect.Type{}
+	collectExactFieldNames(t, fields)
+	exactFieldCache.Store(t, fields)
+	return fields
+}
+
+func collectExactFieldNames(t reflect.Type, fields map[string]reflect.Type) {
+	// A field of the struct itself takes precedence over a promoted field of
+	// the same name, so the embedded structs are looked at last.
+	var embedded []reflect.Type
+	for i := 0; i < t.NumField(); i++ {
+		f := t.Field(i)
+		tag := f.Tag.Get("json")
+		if tag == "-" {
+			continue
+		}
+		name, _, _ := strings.Cut(tag, ",")
+		if f.Anonymous && name == "" {
+			ft := f.Type
+			if ft.Kind() == reflect.Ptr {
+				ft = ft.Elem()
+			}
+			if ft.Kind() == reflect.Struct {
+				embedded = append(embedded, ft)
+				continue
+			}
+		}
+		if !f.IsExported() {
+			continue
+		}
+		if name == "" {
+			name = f.Name
+		}
+		if _, shadowed := fields[name]; !shadowed {
+			fields[name] = f.Type
+		}
+	}
+	for _, ft := range embedded {
+		collectExactFieldNames(ft, fields)
+	}
+}
+
+// dropInexactKeys returns data with every object member removed that
+// json.Unmarshal into a value of type t would store in a struct field under
+// another name than the member's own, or ignore. Values are copied verbatim.
+// Anything that is not shaped like t is returned as it is, for json.Unmarshal
+// to report.
+func dropInexactKeys(data []byte, t reflect.Type) []byte {
+	if t == nil {
+		return data
+	}
+	if t.Implements(jsonUnmarshalerType) || reflect.PtrTo(t).Implements(jsonUnmarshalerType) {
+		return data
+	}
+	switch t.Kind() {
+	case reflect.Ptr:
+		return dropInexactKeys(data, t.Elem())
+	case reflect.Struct:
+		var object map[string]json.RawMessage
+		if err := json.Unmarshal(data, &object); err != nil || object == nil {
+			return data
+		}
+		fields := exactFieldNames(t)
+		var out bytes.Buffer
+		out.WriteByte('{')
+		for name, value := range object {
+			fieldType, ok := fields[name]
+			if !ok {
+				continue
+			}
+			if out.Len() > 1 {
+				out.WriteByte(',')
+			}
+			out.WriteString(strconv.Quote(name))
+			out.WriteByte(':')
+			out.Write(dropInexactKeys(value, fieldType))
+		}
+		out.WriteByte('}')
+		return out.Bytes()
+	case reflect.Map:
+		if !containsStruct(t.Elem()) {
+			return data
+		}
+		var object map[string]json.RawMessage
+		if err := json.Unmarshal(data, &object); err != nil || object == nil {
+			return data
+		}
+		var out bytes.Buffer
+		out.WriteByte('{')
+		for name, value := range object {
+			if out.Len() > 1 {
+				out.WriteByte(',')
+			}
+			quoted, err := json.Marshal(name)
+			if err != nil {
+				return data
+			}
+			out.Write(quoted)
+			out.WriteByte(':')
+			out.Write(dropInexactKeys(value, t.Elem()))
+		}
+		out.WriteByte('}')
+		return out.Bytes()
+	case reflect.Slice, reflect.Array:
+		if !containsStruct(t.Elem()) {
+			return data
+		}
+		var list []json.RawMessage
+		if err := json.Unmarshal(data, &list); err != nil || list == nil {
+			return data
+		}
+		var out bytes.Buffer
+		out.WriteByte('[')
+		for i, value := range list {
+			if i > 0 {
+				out.WriteByte(',')
+			}
+			out.Write(dropInexactKeys(value, t.Elem()))
+		}
+		out.WriteByte(']')
+		return out.Bytes()
+	}
+	return data
+}
+
+// containsStruct reports whether decoding into t can reach a struct field.
+func containsStruct(t reflect.Type) bool {
+	for depth := 0; depth < 8; depth++ {
+		if t.Implements(jsonUnmarshalerType) || reflect.PtrTo(t).Implements(jsonUnmarshalerType) {
+			return false
+		}
+		switch t.Kind() {
+		case reflect.Struct:
+			return true
+		case reflect.Ptr, reflect.Map, reflect.Slice, reflect.Array:
+			t = t.Elem()
+		default:
+			return false
+		}
+	}
+	return false
+}
